@@ -57,7 +57,8 @@ def add_toc_hook(
 
 
 def normalize_toc_item(md: "Markdown", token: Dict[str, Any]) -> Tuple[int, str, str]:
-    text = token["text"]
+    # same normalization as Markdown._iter_render (setext headings end with a newline)
+    text = token["text"].strip(" \r\n\t\f")
     tokens = md.inline(text, {})
     assert md.renderer is not None
     html = md.renderer(tokens, BlockState())
